@@ -230,27 +230,6 @@ theorem mergeLeftStep_SJ (s : SSt) (r c : Nat) (h : SJ s.st) (hint : internal s.
   · right; exact ⟨hr.symm, rfl, rfl⟩
   · left; exact ⟨rfl, hr.symm, rfl⟩
 
-theorem mergeLeftLoop_SJ : ∀ (fuel : Nat) (s : SSt) (r : Nat), SJ s.st → SJ (mergeLeftLoop fuel s r).st
-  | 0, s, r, h => h
-  | fuel + 1, s, r, h => by
-    unfold mergeLeftLoop
-    simp only
-    split
-    · exact h
-    · rename_i c hc
-      split
-      · split
-        · exact h
-        · rename_i hg
-          simp only [bne_iff_ne, ne_eq, Decidable.not_not] at hg
-          apply mergeLeftLoop_SJ
-          exact mergeLeftStep_SJ _ _ _ h (findMinIn_ext _ _ _ _ hc) hg
-      · exact h
-
-theorem mergeLeft_SJ (s : SSt) (r : Nat) (h : SJ s.st) : SJ (mergeLeft s r).st := by
-  unfold mergeLeft
-  exact mergeLeftLoop_SJ _ _ _ h
-
 /-! ### `Blocks::mergeRight` -/
 
 theorem mergeRightStep_st (s : SSt) (l c : Nat) :
@@ -275,46 +254,7 @@ theorem mergeRightStep_SJ (s : SSt) (l c : Nat) (h : SJ s.st) (hint : internal s
     refine ⟨rfl, hl.symm, ?_⟩
     simp only [offs]; grind
 
-theorem mergeRightLoop_SJ : ∀ (fuel : Nat) (s : SSt) (l : Nat), SJ s.st → SJ (mergeRightLoop fuel s l).st
-  | 0, s, l, h => h
-  | fuel + 1, s, l, h => by
-    unfold mergeRightLoop
-    simp only
-    split
-    · exact h
-    · rename_i c hc
-      split
-      · split
-        · exact h
-        · rename_i hg
-          simp only [bne_iff_ne, ne_eq, Decidable.not_not] at hg
-          apply mergeRightLoop_SJ
-          exact mergeRightStep_SJ _ _ _ h (findMinOut_ext _ _ _ _ hc) hg
-      · exact h
-
-theorem mergeRight_SJ (s : SSt) (l : Nat) (h : SJ s.st) : SJ (mergeRight s l).st := by
-  unfold mergeRight
-  exact mergeRightLoop_SJ _ _ _ h
-
 /-! ### `Solver::satisfy` -/
-
-theorem satisfyStep_SJ (s : SSt) (v : Nat) (h : SJ s.st) : SJ (satisfyStep s v).st := by
-  unfold satisfyStep
-  simp only
-  split
-  · exact h
-  · exact mergeLeft_SJ _ _ h
-
-theorem foldl_satisfyStep_SJ : ∀ (l : List Nat) (s : SSt), SJ s.st → SJ (l.foldl satisfyStep s).st
-  | [], _, h => h
-  | v :: rest, s, h => by
-    rw [List.foldl_cons]
-    exact foldl_satisfyStep_SJ rest _ (satisfyStep_SJ s v h)
-
-theorem satisfyCore_SJ (s : SSt) (h : SJ s.st) : SJ (satisfyCore s).st := by
-  unfold satisfyCore SSt.cleanup
-  simp only
-  exact SJ.of_same (same_cleanup _) (foldl_satisfyStep_SJ _ _ h)
 
 /-- what a call of `satisfy` can return -/
 theorem satisfy_cases (s : SSt) :
@@ -331,10 +271,6 @@ theorem satisfy_cases (s : SSt) :
       simp only [Outcome.ok.injEq] at h
       exact ⟨by simpa using hb, hs, h.1.symm⟩
     · exact ⟨rfl, fun _ _ h => by cases h⟩
-
-theorem satisfy_SJ (s : SSt) (h : SJ s.st) : SJ (s.satisfy).1.st := by
-  rw [(satisfy_cases s).1]
-  exact satisfyCore_SJ s h
 
 /-! ### `Blocks::split` -/
 
@@ -380,20 +316,6 @@ theorem splitStatic_st (s : SSt) (b c : Nat) :
     (splitStatic s b c).st =
       St.markDeleted (mergeRight (splitMid (mergeLeft (splitPre s b c).1 (splitPre s b c).2) c).1
         (splitMid (mergeLeft (splitPre s b c).1 (splitPre s b c).2) c).2).st b := rfl
-
-theorem splitStatic_SJ (s : SSt) (b c : Nat) (h : SJ s.st) (hact : (s.st.cons[c]!).active = true)
-    (hb : blkOf s.st (s.st.cons[c]!).l = b) : SJ (splitStatic s b c).st := by
-  rw [splitStatic_st]
-  apply SJ.of_same (same_markDeleted _ _)
-  apply mergeRight_SJ
-  rw [splitMid_st]
-  apply SJ.of_same (same_refreshBlock _ _)
-  apply mergeLeft_SJ
-  rw [splitPre_st]
-  apply SJ.of_same (same_setPosn _ _ _)
-  apply SJ.of_same (same_insertBlocks _ _ _)
-  rw [← hb]
-  exact split_SJ s.st c h hact
 
 /-- every constraint whose `lm` is assigned by `compute_dfdv` in block `bid` is active and has an end in
     block `bid` -/
@@ -457,137 +379,32 @@ theorem findMinLM_blk (st : St) (bid : Nat) {n : Nat} {ia : Array Nat} (h : InvC
   · rw [(h.tight cj (active_lt _ _ ha) ha).1]; exact hb
   · exact hb
 
-/-- once a traversal has run out of fuel every later state keeps the flag -/
-theorem mergeDir_fuel (st : St) (ci dst src : Nat) (d : Rat) : (mergeDir st ci dst src d).fuelOut = st.fuelOut :=
-  (mergeDir_core st ci dst src d).2.2.2
-
-theorem mergeLeftLoop_fuel : ∀ (fuel : Nat) (s : SSt) (r : Nat), s.st.fuelOut = true →
-    (mergeLeftLoop fuel s r).st.fuelOut = true
-  | 0, _, _, h => h
-  | fuel + 1, s, r, h => by
-    unfold mergeLeftLoop
-    simp only
-    split
-    · exact h
-    · split
-      · split
-        · exact h
-        · apply mergeLeftLoop_fuel
-          rw [mergeLeftStep_st, mergeDir_fuel]; exact h
-      · exact h
-
-theorem mergeRightLoop_fuel : ∀ (fuel : Nat) (s : SSt) (l : Nat), s.st.fuelOut = true →
-    (mergeRightLoop fuel s l).st.fuelOut = true
-  | 0, _, _, h => h
-  | fuel + 1, s, l, h => by
-    unfold mergeRightLoop
-    simp only
-    split
-    · exact h
-    · split
-      · split
-        · exact h
-        · apply mergeRightLoop_fuel
-          rw [mergeRightStep_st, mergeDir_fuel]; exact h
-      · exact h
-
-theorem splitStatic_fuel (s : SSt) (b c : Nat) (h : s.st.fuelOut = true) :
-    (splitStatic s b c).st.fuelOut = true := by
-  rw [splitStatic_st]
-  simp only [St.markDeleted]
-  unfold mergeRight
-  apply mergeRightLoop_fuel
-  rw [splitMid_st]
-  rw [(refreshBlock_core _ _).2.2.2.2]
-  unfold mergeLeft
-  apply mergeLeftLoop_fuel
-  rw [splitPre_st]
-  simp only [setPosn, St.insertBlocks]
-  exact split_fuel_true _ _ _ h
-
-/-! ### `Solver::refine` -/
-
-theorem refineSetUp_st (s : SSt) : (refineSetUp s).st = s.st := rfl
-
-theorem refineTry_SJ (s : SSt) (b : Nat) (h : SJ s.st) : SJ (refineTry s b).1.st := by
-  have h1 := findMinLM_SJ s.st b h
-  obtain ⟨hv, hc, _, _, hfo, hact⟩ := findMinLM_spec s.st b
-  unfold refineTry
-  simp only
-  split
-  · exact h1
-  · rename_i ci lmv gap heq
-    split
-    · have ha : ((s.st.findMinLM b).1.cons[ci]!).active = true := by
-        rw [hc]; exact hact ci lmv gap heq
-      apply SJ.of_same (same_cleanup _)
-      rcases h1 with hf | hi
-      · -- a traversal already ran out of fuel: every later state keeps the flag
-        exact Or.inl (splitStatic_fuel _ _ _ hf)
-      · have hblk : blkOf (s.st.findMinLM b).1 ((s.st.findMinLM b).1.cons[ci]!).l = b := by
-          have hic : InvC s.st.vars s.st.cons (s.st.findMinLM b).1.blocks.size
-              (Array.range (s.st.findMinLM b).1.cons.size) := by
-            have := hi; unfold IC at this; rw [hv, hc] at this; rw [hc]; exact this
-          have := findMinLM_blk s.st b hic ci lmv gap heq
-          unfold blkOf; rw [hv, hc]; exact this
-        exact splitStatic_SJ _ _ _ (Or.inr hi) ha hblk
-    · exact h1
-
-theorem refineScan_SJ : ∀ (l : List Nat) (s : SSt), SJ s.st → SJ (refineScan s l).1.st
-  | [], _, h => h
-  | b :: rest, s, h => by
-    unfold refineScan
-    have h1 := refineTry_SJ s b h
-    simp only
-    split
-    · exact h1
-    · exact refineScan_SJ rest _ h1
-
-theorem refineLoop_SJ : ∀ (tries : Nat) (s : SSt), SJ s.st → SJ (refineLoop tries s).st
-  | 0, _, h => h
-  | tries + 1, s, h => by
-    unfold refineLoop
-    simp only
-    have h1 : SJ (refineScan (refineSetUp { s with hs := { s.hs with nRounds := s.hs.nRounds + 1 } })
-        (refineSetUp { s with hs := { s.hs with nRounds := s.hs.nRounds + 1 } }).st.order.toList).1.st :=
-      refineScan_SJ _ _ h
-    split
-    · exact refineLoop_SJ tries _ h1
-    · exact h1
-
-theorem refineCore_SJ (s : SSt) (h : SJ s.st) : SJ (refineCore s).st := refineLoop_SJ 100 s h
-
 /-- what a call of `solve` can return -/
 theorem solve_cases (s : SSt) :
     (∀ pos ret, (s.solve).2 = .ok pos ret →
-      (s.solve).1.bad = false ∧ scanStatic (s.solve).1.st = true ∧ pos = (s.solve).1.st.positions ∧
-      (s.solve).1.st = (refineCore (s.satisfy).1).st ∧ ∃ p r, (s.satisfy).2 = .ok p r) ∧
-    (SJ s.st → SJ (s.solve).1.st) := by
+      (s.solve).1.bad = false ∧ scanStatic (s.solve).1.st = true ∧ pos = (s.solve).1.st.positions) ∧
+    ((s.solve).1.st = (refineCore (s.satisfy).1).st ∨ (s.solve).1.st = (s.satisfy).1.st) := by
   unfold SSt.solve
   split
   · rename_i s1 p r heq
     have e1 : (s.satisfy).1 = s1 := by rw [heq]
-    have hSJ : SJ s.st → SJ (refineCore s1).st := fun h =>
-      refineCore_SJ _ (by rw [← e1]; exact satisfy_SJ s h)
     simp only
     split
-    · exact ⟨fun _ _ h => (by cases h), hSJ⟩
+    · exact ⟨fun _ _ h => (by cases h), Or.inl (by rw [e1])⟩
     · split
       · rename_i hb hs
-        refine ⟨fun pos ret h => ?_, hSJ⟩
+        refine ⟨fun pos ret h => ?_, Or.inl (by rw [e1])⟩
         simp only [Outcome.ok.injEq] at h
-        exact ⟨by simpa using hb, hs, h.1.symm, by rw [e1], ⟨p, r, by rw [heq]⟩⟩
-      · exact ⟨fun _ _ h => (by cases h), hSJ⟩
+        exact ⟨by simpa using hb, hs, h.1.symm⟩
+      · exact ⟨fun _ _ h => (by cases h), Or.inl (by rw [e1])⟩
   · rename_i r hne
-    refine ⟨fun pos ret h => ?_, fun h => satisfy_SJ s h⟩
+    refine ⟨fun pos ret h => ?_, Or.inr rfl⟩
     exfalso
     cases hr : s.satisfy with
     | mk a o =>
       rw [hr] at h
       simp only at h
       exact hne a pos ret (by rw [hr, h])
-
-theorem solve_SJ (s : SSt) (h : SJ s.st) : SJ (s.solve).1.st := (solve_cases s).2 h
 
 /-! ### the constructor -/
 
@@ -602,10 +419,9 @@ theorem scanStatic_iff (st : St) :
   unfold scanStatic
   simp [List.all_eq_true]
 
-theorem bad_false (s : SSt) (h : s.bad = false) :
-    s.st.fuelOut = false ∧ s.hs.fuelOut = false ∧ s.hs.corrupt = false := by
+theorem bad_false (s : SSt) (h : s.bad = false) : s.st.fuelOut = false ∧ s.hs.fuelOut = false := by
   unfold SSt.bad at h
   simp only [Bool.or_eq_false_iff] at h
-  exact ⟨h.2, h.1.1, h.1.2⟩
+  exact ⟨h.2, h.1⟩
 
 end AdaptaVerif.Lemmas.VpscStatic
